@@ -249,6 +249,7 @@ var subSets = [][][]string{
 	{{"a"}},
 	{{"a", "b"}, {"a", "c"}}, // two paths below one prefix element
 	{{"b"}, {"*", "c"}},
+	{{"a"}, {"a"}}, // the same path listed twice: one registration, two remove functions
 }
 
 var probes = [][]string{{"t", "a"}, {"t", "a", "b"}, {"t", "a", "c"}, {"t", "b"}, {"t", "b", "c"}, {"t", "c", "c"}}
@@ -260,6 +261,11 @@ type hsys struct {
 	removes [3]func()
 	active  [3]int // -1 none, else subSets index
 	drain   [3]func()
+	// past[c]: bit 0 = client c has unsubscribed a list with a repeated path,
+	// bit 1 = it has unsubscribed any other list. Part of the canonical state:
+	// an implementation may keep bookkeeping (registration counts) that past
+	// removals leave behind and that no probe shows until later.
+	past [3]int
 }
 
 func (s *hsys) offered(p []string) [3]bool {
@@ -309,6 +315,11 @@ func (s *hsys) Apply(i int) []seqmc.Violation {
 		if s.removes[o.client] != nil {
 			s.removes[o.client]()
 			s.removes[o.client]() // idempotent
+			if s.active[o.client] == 3 {
+				s.past[o.client] |= 1
+			} else if s.active[o.client] >= 0 {
+				s.past[o.client] |= 2
+			}
 			s.active[o.client] = -1
 		}
 	}
@@ -330,7 +341,7 @@ func (s *hsys) Apply(i int) []seqmc.Violation {
 func (s *hsys) Key() string {
 	var b strings.Builder
 	for ci := 0; ci < 3; ci++ {
-		fmt.Fprintf(&b, "%d;", s.active[ci])
+		fmt.Fprintf(&b, "%d/%d;", s.active[ci], s.past[ci])
 	}
 	// observable behaviour of the trie on the probe set
 	var obs []string
@@ -370,7 +381,7 @@ func (harness) Specs(tier string) []seqmc.Spec {
 	if tier == "thorough" {
 		n = 5
 	}
-	return []seqmc.Spec{specRelation(n), specContainTree(n), specContainGNMI(), specOnce(), specHistories(12)}
+	return []seqmc.Spec{specRelation(n), specContainTree(n), specContainGNMI(), specOnce(), specHistories(30)}
 }
 
 func main() { seqmc.Main(harness{}) }
